@@ -39,3 +39,53 @@ Example C01_nonvacuous_reject :
   /\ first_dead URI_reference [47;47;91;58;58;49;46;48;50;46;51;46;52;93] = 8%nat
   /\ parse [97;32;98] = PSyntax 1%nat.
 Proof. vm_compute. auto. Qed.
+
+(* ---- the switch tables translated from the C source (Generated/SwitchTables.v, re-derived from the tree
+   on every check by gen/switchtables.py) against the atoms: what makes the conformance suite, which puts
+   the characters [suite_chars] (one per atom, plus 'A') after every access string, complete with respect
+   to every `switch` on a character in UriParse.c and UriIp4.c.  Proofs in Proofs/SwitchRefine.v. *)
+From Coq Require Import String.
+From UP Require Import Base.Atoms Base.SuiteChars Generated.SwitchTables Proofs.SwitchBase Proofs.SwitchRefine.
+
+(* every such switch is refined by the atoms (two characters of one atom reach the same case body),
+   except the h16 scanner of uriParseIPv6address2, which has one body for a-f and one for A-F *)
+Theorem C01_switches_refined_by_atoms :
+  forallb (fun t => refines (snd t) || splits_hex_case t) parser_tables = true.
+Proof. exact all_switches_refined. Qed.
+Print Assumptions C01_switches_refined_by_atoms.
+
+Theorem C01_hex_case_switch_refuted :
+  existsb splits_hex_case parser_tables = true
+  /\ exists c d, atom_of c = atom_of d
+       /\ group_of (table hex_case_switch) c <> group_of (table hex_case_switch) d.
+Proof. exact hex_case_switch_refuted. Qed.
+Print Assumptions C01_hex_case_switch_refuted.
+
+(* every such switch, that one included: each code point has a suite character of its atom in its case group *)
+Theorem C01_switches_covered_by_suite_chars :
+  forallb (fun t => covered suite_chars (snd t)) parser_tables = true.
+Proof. exact all_switches_covered. Qed.
+Print Assumptions C01_switches_covered_by_suite_chars.
+
+(* what the two booleans say, for all code points (the wide ones included) *)
+Theorem C01_switch_refinement_meaning : forall name g, In (name, g) parser_tables ->
+  (name <> hex_case_switch ->
+     forall c d : N, atom_of c = atom_of d -> group_of g c = group_of g d)
+  /\ (forall c : N, exists r, In r suite_chars /\ atom_of r = atom_of c /\ group_of g r = group_of g c).
+Proof. exact parser_switches_meaning. Qed.
+Print Assumptions C01_switch_refinement_meaning.
+
+(* the URI_SET_* macros, expanded from their #define text, are the character classes of Base/Chars.v *)
+Theorem C01_macro_sets :
+  (forall c, In c set_URI_SET_DIGIT <-> is_digit c = true)
+  /\ (forall c, In c set_URI_SET_ALPHA <-> is_alpha c = true)
+  /\ (forall c, In c set_URI_SET_HEXDIG <-> is_hexdig c = true)
+  /\ (forall c, In c set_URI_SET_HEX_LETTER_LOWER <-> is_hex_lower c = true)
+  /\ (forall c, In c set_URI_SET_HEX_LETTER_UPPER <-> is_hex_upper c = true).
+Proof. exact macro_sets. Qed.
+Print Assumptions C01_macro_sets.
+
+Example C01_switch_tables_nonvacuous :
+  Nat.leb 30 (List.length parser_tables) = true
+  /\ existsb (fun t => String.eqb (fst t) "UriParse.c:uriParseOwnHost2#1") parser_tables = true.
+Proof. exact parser_tables_found. Qed.
